@@ -28,7 +28,7 @@ import (
 func TestC11(t *testing.T) {
 	r := report.Start("C11")
 	defer r.Finish()
-	np := r.Pick(40000, 1000000)
+	np := r.Cases(40000, 1000000)
 	for i := 0; i < np; i++ {
 		if i%r.NShards != r.Shard.Shard && !r.Replaying() {
 			continue
@@ -39,7 +39,7 @@ func TestC11(t *testing.T) {
 		}
 		c11Split(r, id)
 	}
-	nh := r.Pick(256, 9600)
+	nh := r.Cases(256, 9600)
 	for i := 0; i < nh; i++ {
 		id := fmt.Sprintf("hist/%d", i)
 		if !r.Want(id, i) {
